@@ -50,26 +50,28 @@ def hasSynField (b : Batch) (n : Name) : Prop :=
       `termSynMap[syn]` (line 161) would be read without having been defined.
       USED by the Lean proofs (C12_* are false without it: ids missing, and
       `hasThes` false while pass 2 still sees the field).
-    * `lhs ≠ []` — `mergeAndPersistSynonymSection` (line 661:
-      `if prevTerm != nil && !bytes.Equal(prevTerm, term)`, line 720
-      `if prevTerm != nil`) takes the empty previous term for "no previous term"
-      (`prevTerm = prevTerm[:0]` of a nil slice stays nil): an empty LHS term is
-      never finished and its pairs fold into the next term (finding D4).  The
-      model's `mergeThes` does NOT reproduce this, so the clause is not used by
-      the Lean proofs; it delimits the domain on which model and code agree.
     * `rhs ≠ []` — a thesaurus none of whose definitions has a synonym gets an
       empty `SynonymIDtoTerm`; `writeSynTermMap` (line 523 `if len(synTermMap) == 0
       { return nil }`) then writes nothing and the loader
       (synonym_cache.go:84-88) reads the next bytes as the count.  Not used by
       the Lean proofs (the model drops such definitions, as `writeSynonyms`
-      returning offset 0 at line 492-494 does).
+      returning offset 0 at line 492-494 does).  The weaker "every thesaurus has
+      some synonym" would do for the loader; the per-definition form is what the
+      generators guarantee.
     * synonym terms `≠ []` — the loader rejects a zero-length synonym term
       (synonym_cache.go:95 `if termLen == 0 { return ... "term length is 0" }`).
-      Not used by the Lean proofs. -/
+      Not used by the Lean proofs.
+
+    NOT a clause: LHS terms may be empty.  The pinned tree lost the empty LHS
+    term in `mergeAndPersistSynonymSection` (`prevTerm != nil` took the empty
+    previous term for "no previous term"; finding D4); that defect is fixed in
+    /repo ("fix: synonym merge lost the empty left-hand term", a `seenTerm`
+    flag), the model's `mergeThes` / `enumerate` keep the empty key, and the
+    differential generators produce it. -/
 def SynWF (b : Batch) : Prop :=
   ∀ d ∈ b, ∀ f ∈ d.fields, f.kind = .syn →
     d.plain = false ∧
-    ∀ df ∈ f.defs, df.lhs ≠ [] ∧ df.rhs ≠ [] ∧ ∀ s ∈ df.rhs, s ≠ []
+    ∀ df ∈ f.defs, df.rhs ≠ [] ∧ ∀ s ∈ df.rhs, s ≠ []
 
 instance (b : Batch) : Decidable (SynWF b) := by unfold SynWF; infer_instance
 
